@@ -153,3 +153,49 @@ func (cs *c14Case) runCheckWhileCopying(mb int) {
 				term, idx, okStartedWhileCopying, okBeforeDone, len(raw), len(refRaw), d), extra)
 	}
 }
+
+// scenario "hll-flush-race" (seed C14-2): the write cache of HyperLogLog keys
+// must be in the engine before the backup goroutine takes the engine snapshot.
+// Right before every Backup the whole write cache (32 entries) is made dirty with
+// freshly PFADDed keys, so that a flush that is not finished when the snapshot
+// is taken loses a visible number of keys; the checkpoint is restored right
+// away and compared (PFCOUNT of every key through the cache at the backup
+// instant vs after the restore).
+func (cs *c14Case) runHLLFlushRace(reps int) {
+	var err error
+	cs.Keep = 0
+	if cs.a, err = cs.open("A", nil); err != nil {
+		cs.incon = err.Error()
+		return
+	}
+	l := cs.a
+	cs.write(l, 5+cs.r.Intn(10))
+	for rep := 0; rep < reps && cs.incon == "" && len(cs.viol) == 0; rep++ {
+		var es []Entry
+		for j := 0; j < rockredis.HLLWriteCacheSize; j++ {
+			key := fmt.Sprintf("hf%02d", j)
+			args := []string{}
+			for e := 0; e < 30+cs.r.Intn(30); e++ {
+				args = append(args, fmt.Sprintf("e%d-%d-%d", rep, j, cs.r.Intn(1000000)))
+			}
+			cs.hll["hllrace:"+key] = true
+			cs.idx++
+			cs.ts++
+			es = append(es, Entry{Cmds: []Cmd{C("pfadd", "hllrace", key, args...)}, TsNano: cs.ts, Index: cs.idx, Term: cs.term})
+			cs.nCmds++
+		}
+		cs.applyChunks(l, es, 1+cs.r.Intn(16))
+		cs.nDirtyFills++
+		k := cs.backup(true)
+		if k == nil {
+			return
+		}
+		if !cs.restore(k, "restore right after a backup with a full dirty HLL cache") {
+			return
+		}
+		if cs.r.Intn(3) == 0 {
+			cs.write(l, 1+cs.r.Intn(5))
+		}
+	}
+	cs.checkDirs("at the end")
+}
